@@ -1694,3 +1694,57 @@ func c16AuthzTemporaryKept(c *Check, rule string) {
 		c.Fail(rule, "CheckBody:decision", r.FI.Decl.Pos(), "undecided: the header stage does not call the decision function authzSender")
 	}
 }
+
+// c10EnvelopeIsValidUTF8: the queue keeps the envelope in a JSON record; encoding/json replaces every byte sequence
+// that is not valid UTF-8 by U+FFFD. An address with such bytes (accepted under SMTPUTF8: the syntax checks look at
+// the domain only) is handed to the first attempt as received and to every retry, and to every attempt after a
+// restart, as a different string. The endpoint therefore refuses addresses that are not valid UTF-8: the hand-over to
+// the pipeline lies behind a utf8.ValidString test of the address.
+func c10EnvelopeIsValidUTF8(c *Check, rule string) {
+	c.Rule(rule, "SMTP endpoint: an envelope address reaches the pipeline (Start, AddRcpt) only behind a test that it is valid UTF-8 – the spool's JSON record would store a different string (U+FFFD) than the one the first attempt used", 2)
+	type site struct {
+		recv, fn string
+		target   func(info *types.Info, call *ast.CallExpr) bool
+	}
+	sites := []site{
+		{"Session", "rcpt", func(info *types.Info, call *ast.CallExpr) bool {
+			fn := callee(info, call)
+			return methodName(call) == "AddRcpt" && fn != nil && fn.Pkg() != nil && strings.HasSuffix(fn.Pkg().Path(), "/framework/module")
+		}},
+		{"Session", "startDelivery", func(info *types.Info, call *ast.CallExpr) bool {
+			return methodName(call) == "Start" && isCall(info, call, "~/internal/msgpipeline.MsgPipeline.Start")
+		}},
+	}
+	for _, st := range sites {
+		r := c.need(rule, smtpEndpRel, st.recv, st.fn)
+		if r == nil {
+			continue
+		}
+		info := r.Info
+		sig := r.FI.Obj.Type().(*types.Signature)
+		var addr types.Object
+		for i := 0; i < sig.Params().Len(); i++ {
+			if isStringType(sig.Params().At(i).Type()) {
+				addr = sig.Params().At(i)
+				break
+			}
+		}
+		targets := r.Calls(st.target)
+		if addr == nil || len(targets) == 0 {
+			c.Fail(rule, st.recv+"."+st.fn+":hand-over", r.FI.Decl.Pos(), "undecided: the hand-over of the address to the pipeline was not found")
+			continue
+		}
+		valid := r.F.AvoidImplying(func(atom ast.Expr) (bool, bool) {
+			call, ok := ast.Unparen(atom).(*ast.CallExpr)
+			if !ok || !isCall(info, call, "unicode/utf8.ValidString", "unicode/utf8.Valid") || len(call.Args) != 1 {
+				return false, false
+			}
+			if !mentions(info, call.Args[0], addr) {
+				return false, false
+			}
+			return true, true
+		})
+		path, f := r.F.Reach(Query{From: r.Entry(), Inclusive: true, Target: isPt(targets), AvoidEdge: valid, NoCorr: true})
+		c.Hold(rule, st.recv+"."+st.fn+":valid-utf8", r.FI.Decl.Pos(), !f, "the address reaches the pipeline without a test that it is valid UTF-8: `RCPT TO:<\\xffuser@example.com>` under SMTPUTF8 is accepted, the first attempt is made for the 17-byte address as received, the spool record (JSON) holds U+FFFD in place of the byte – every retry and every attempt after a restart goes to a different address: "+r.F.Describe(path))
+	}
+}
